@@ -1,6 +1,7 @@
 package main
 
 import (
+	"bytes"
 	"math"
 	"strings"
 
@@ -8,9 +9,20 @@ import (
 )
 
 func rt[K any](c art.BinaryComparableKey[K], k K, show func(K) string) ([]byte, string) {
-	_, enc := c.Transform(k)
-	enc = append([]byte{}, enc...)
-	return enc, show(c.Restore(enc))
+	_, raw := c.Transform(k)
+	enc := append([]byte{}, raw...)
+	// what callers do with an encoding: append to it (tuple concatenation) and decode it more than once.  Neither
+	// may change what the codec returns afterwards: an encoding served from shared storage, or a decoder that
+	// rewrites its input, shows in a later command of the same file (or right here).
+	_ = append(raw, 0x5a, 0xa5)
+	dec := show(c.Restore(enc))
+	if again := show(c.Restore(enc)); again != dec {
+		return enc, dec + "!second-decode=" + again
+	}
+	if _, raw2 := c.Transform(k); !bytes.Equal(raw2, enc) {
+		return raw2, dec + "!second-encode-differs"
+	}
+	return enc, dec
 }
 
 // codecRoundTrip runs the exported codec type for (kind, variant) on one key:
